@@ -32,6 +32,7 @@ type Obligation struct {
 	Goal   string
 	Pos    string
 	Extra  []string // extra declarations/assertions local to this obligation
+	Subs   []*SubGoal // when non-empty: the obligation is the conjunction of these goals (one per return site)
 	Expect string   // "unsat" normally; "sat" for vacuity covers
 	// results
 	Status  string
@@ -39,6 +40,14 @@ type Obligation struct {
 	Seconds float64
 	Model   string
 	Output  string
+}
+
+// SubGoal: one path-specific part of an obligation.
+type SubGoal struct {
+	Prefix int
+	Cond   string
+	Goal   string
+	Extra  []string
 }
 
 const (
@@ -92,6 +101,16 @@ type VC struct {
 	ghostSorts map[string]string
 	revealed map[string]bool
 	label    string
+	ifacePtr map[string]*PtrDesc
+	readLog  map[string]bool
+	errAxDone bool
+	lines    []lineInfo // parallel to script
+}
+
+// lineInfo classifies a script line for query slicing.
+type lineInfo struct {
+	def   string // non-empty: the line is "(assert (= def term))" introducing def
+	axiom string // non-empty: quantified definitional axiom for array symbol axiom
 }
 
 type strSource struct {
@@ -103,7 +122,7 @@ func newVC(w *World, fn *ssa.Function, c *Contract) *VC {
 	return &VC{w: w, fn: fn, contract: c, declared: map[string]bool{}, pureDone: map[*SpecFn]bool{},
 		heapSort: map[string]string{}, strDone: map[int]bool{}, strSrc: map[string]*strSource{}, strCat: map[string][2]Val{},
 		tableDone: map[string]bool{}, ordinals: map[string]int{}, trusted: map[string]bool{}, snapArrays: map[string][]string{},
-		nonNil: map[string]bool{}, ghostSorts: map[string]string{}, revealed: map[string]bool{}}
+		nonNil: map[string]bool{}, ghostSorts: map[string]string{}, revealed: map[string]bool{}, ifacePtr: map[string]*PtrDesc{}}
 }
 
 type outsideSubset struct{ msg string }
@@ -189,6 +208,29 @@ func (vc *VC) oblige(st *State, kind, label, goal string, pos token.Pos, props [
 	vc.assume(st.cond, goal)
 }
 
+// obligeSubs records an obligation that is the conjunction of path-specific goals.
+func (vc *VC) obligeSubs(kind, label string, subs []*SubGoal, trivial bool, pos token.Pos, props []string) {
+	name := vc.fnName() + "#" + kind
+	if label != "" {
+		name += "." + label
+	}
+	vc.ordinals[name]++
+	if n := vc.ordinals[name]; n > 1 || label == "" {
+		name = fmt.Sprintf("%s.%d", name, n)
+	}
+	if props == nil {
+		props = vc.curProps
+	}
+	o := &Obligation{Name: name, Kind: kind, Fn: vc.fnName(), Props: props, Subs: subs, Expect: "unsat", Prefix: len(vc.script), Cond: "true", Goal: "true"}
+	if pos.IsValid() {
+		o.Pos = vc.w.Fset.Position(pos).String()
+	}
+	if trivial {
+		o.Status, o.Solver = "unsat", "syntactic"
+	}
+	vc.obls = append(vc.obls, o)
+}
+
 // ---------------------------------------------------------------------------
 // heaps
 
@@ -197,6 +239,9 @@ func (vc *VC) heapTerm(st *State, name, sort string) string {
 		panic(fmt.Sprintf("heap %s used at two sorts: %s vs %s", name, s, sort))
 	}
 	vc.heapSort[name] = sort
+	if vc.readLog != nil {
+		vc.readLog[name] = true
+	}
 	if t, ok := st.heap.m[name]; ok {
 		return t
 	}
@@ -341,6 +386,7 @@ type loopInfo struct {
 	backs    []*ssa.BasicBlock
 	variant0 string
 	havocSt  *State
+	userTargets []locTarget
 }
 
 func (vc *VC) newFrame(fn *ssa.Function, top bool) *Frame {
